@@ -1699,3 +1699,180 @@ def build_calls(_tree):
 
 
 TARGETS['T20calls'] = {'file': 'base.py', 'build': build_calls}
+
+
+# ----------------------------------------------------------------------------------------------- pydicom's own rules (T20pyd)
+PYD_VRS = ['CS', 'SH', 'LO', 'ST', 'LT', 'UI', 'PN']
+
+
+def build_pyd(_tree):
+    """pydicom's validation rule table for the text VRs the guards protect, regenerated from the *installed* pydicom's
+    `valuerep.py` (MAX_VALUE_LEN, the validator function each VR is checked by, the CS regular expression, the shape of
+    `validate_regex`).  Tie: the guards of highdicom are proved to accept only what these rules accept."""
+    import pydicom.valuerep as pv
+    src = open(pv.__file__).read()
+    tree = ast.parse(src)
+    tables = {}
+    for node in tree.body:
+        tgt = None
+        if isinstance(node, ast.Assign) and len(node.targets) == 1 and isinstance(node.targets[0], ast.Name):
+            tgt, val = node.targets[0].id, node.value
+        elif isinstance(node, ast.AnnAssign) and isinstance(node.target, ast.Name) and node.value is not None:
+            tgt, val = node.target.id, node.value
+        if tgt in ('MAX_VALUE_LEN', 'VR_REGEXES', 'VALIDATORS') and isinstance(val, ast.Dict):
+            tables[tgt] = val
+    for need in ('MAX_VALUE_LEN', 'VR_REGEXES', 'VALIDATORS'):
+        if need not in tables:
+            raise Unsupported(f'pydicom.valuerep: table {need} not found as a dict literal')
+
+    def entries(d):
+        out = {}
+        for k, v in zip(d.keys, d.values):
+            if isinstance(k, ast.Constant) and isinstance(k.value, str):
+                out[k.value] = v
+        return out
+    maxlen = {}
+    for k, v in entries(tables['MAX_VALUE_LEN']).items():
+        if not (isinstance(v, ast.Constant) and isinstance(v.value, int)):
+            raise Unsupported(f'pydicom MAX_VALUE_LEN[{k}] is not an int literal')
+        maxlen[k] = v.value
+    regs = entries(tables['VR_REGEXES'])
+    if 'CS' not in regs or not _str_const(regs['CS']):
+        raise Unsupported('pydicom VR_REGEXES["CS"] is not a string literal')
+    cs_re = re_to_lean(regs['CS'].value, True)
+    vals = entries(tables['VALIDATORS'])
+    kinds = []
+    for vr in PYD_VRS:
+        v = vals.get(vr)
+        if v is None:
+            kinds.append((vr, 'none'))
+        elif isinstance(v, ast.Name):
+            kinds.append((vr, v.id))
+        else:
+            kinds.append((vr, 'other'))
+    # the shape of validate_vr_length / validate_regex the model mirrors
+    fn = find_func(tree, 'validate_regex')
+    text_fn = ast.unparse(fn)
+    if 're.match(regex, value)' not in text_fn or 'value[-1] == newline' not in text_fn or 'if value:' not in text_fn:
+        raise Unsupported('pydicom.valuerep.validate_regex changed shape')
+    fl = find_func(tree, 'validate_vr_length')
+    text_fl = ast.unparse(fl)
+    if 'MAX_VALUE_LEN.get(vr, 0)' not in text_fl or 'value_length > max_length' not in text_fl or 'len(value)' not in text_fl:
+        raise Unsupported('pydicom.valuerep.validate_vr_length changed shape')
+    for name, must in (('validate_type_and_length', ['validate_vr_length(vr, value)']),
+                       ('validate_length_and_type_and_regex', ['validate_vr_length(vr, value)', 'validate_regex(vr, value)',
+                                                               'is_valid_len and is_valid_expr'])):
+        t = ast.unparse(find_func(tree, name))
+        if any(m not in t for m in must):
+            raise Unsupported(f'pydicom.valuerep.{name} changed shape')
+    text = ('/-- `pydicom.valuerep.MAX_VALUE_LEN` of the installed pydicom -/\n'
+            'def pydMaxLen : List (String × Nat) := [' + ', '.join(f'("{k}", {v})' for k, v in sorted(maxlen.items())) + ']\n\n'
+            '/-- which function of `pydicom.valuerep.VALIDATORS` checks a value of the VR -/\n'
+            'def pydValidators : List (String × String) := [' + ', '.join(f'("{k}", "{v}")' for k, v in kinds) + ']\n\n'
+            f'/-- `pydicom.valuerep.VR_REGEXES["CS"]` = `{regs["CS"].value}` (applied with `re.match`) -/\n'
+            f'def pydRegexCS : VR.Re := {cs_re}')
+    return text, hashlib.sha256(repr((sorted(maxlen.items()), kinds, regs['CS'].value, text_fn, text_fl)).encode()).hexdigest()
+
+
+TARGETS['T20pyd'] = {'file': 'valuerep.py', 'build': build_pyd, 'imports': ['HdVerif.Model.VR']}
+
+
+# ----------------------------------------------------------------------------------------------- state shared between calls (T20shared)
+_IMMUTABLE_CALLS = {'tuple', 'frozenset', 'UID', 'Fraction', 'Decimal', 'str', 'int', 'float', 'bool', 'bytes', 'namedtuple',
+                    'TypeVar', 'getLogger', 'logging.getLogger', 're.compile', 'property', 'staticmethod', 'classmethod', 'field'}
+
+
+def _immutable_value(d):
+    if isinstance(d, (ast.Constant, ast.Name, ast.Attribute, ast.Lambda, ast.JoinedStr)):
+        return True
+    if isinstance(d, ast.UnaryOp):
+        return _immutable_value(d.operand)
+    if isinstance(d, ast.BinOp):
+        return _immutable_value(d.left) and _immutable_value(d.right)
+    if isinstance(d, ast.Tuple):
+        return all(_immutable_value(e) for e in d.elts)
+    if isinstance(d, ast.Call):
+        return ast.unparse(d.func) in _IMMUTABLE_CALLS and all(_immutable_value(a) for a in d.args)
+    return False
+
+
+def _mutated_names(fn):
+    """names `x` such that the body of `fn` mutates `x` / `self.x` / `cls.x` / `C.x` in place: item or attribute assignment on it,
+    augmented assignment of an item, a mutating method call, `del x[...]`; -> set of (qualifier | None, name)"""
+    out = set()
+
+    def base(n):
+        if isinstance(n, ast.Name):
+            return (None, n.id)
+        if isinstance(n, ast.Attribute) and isinstance(n.value, ast.Name):
+            return (n.value.id, n.attr)
+        return None
+    for n in ast.walk(fn):
+        tgts = []
+        if isinstance(n, ast.Assign):
+            tgts = n.targets
+        elif isinstance(n, (ast.AugAssign, ast.AnnAssign)):
+            tgts = [n.target]
+        elif isinstance(n, ast.Delete):
+            tgts = n.targets
+        for t in tgts:
+            for el in (t.elts if isinstance(t, (ast.Tuple, ast.List)) else [t]):
+                if isinstance(el, (ast.Subscript, ast.Attribute)) and base(el.value) is not None and \
+                        not (isinstance(el, ast.Attribute) and isinstance(el.value, ast.Name) and el.value.id in ('self', 'cls')):
+                    out.add(base(el.value))
+                if isinstance(n, ast.AugAssign) and base(el) is not None and isinstance(el, ast.Attribute):
+                    out.add(base(el))
+        if isinstance(n, ast.Call) and isinstance(n.func, ast.Attribute) and n.func.attr in MUTATORS and base(n.func.value) is not None:
+            out.add(base(n.func.value))
+    return out
+
+
+def build_shared(_tree):
+    """objects that outlive one call and could carry state from one construction into the next: mutable default arguments,
+    mutable class attributes, mutable module globals - with whether any function of the package mutates them in place"""
+    root = os.path.join(os.environ.get('HD_REPO', '/repo'), 'src', 'highdicom')
+    defaults, state = [], []
+    nfun = 0
+    for dp, _, fs in sorted(os.walk(root)):
+        for f in sorted(fs):
+            if not f.endswith('.py'):
+                continue
+            rel = os.path.relpath(os.path.join(dp, f), root)
+            tree = ast.parse(open(os.path.join(dp, f)).read())
+            funcs = [n for n in ast.walk(tree) if isinstance(n, (ast.FunctionDef, ast.AsyncFunctionDef))]
+            nfun += len(funcs)
+            mutated = set()
+            for fn in funcs:
+                mutated |= _mutated_names(fn)
+                args = fn.args.posonlyargs + fn.args.args
+                dflt = [None] * (len(args) - len(fn.args.defaults)) + list(fn.args.defaults)
+                for a, d in list(zip(args, dflt)) + list(zip(fn.args.kwonlyargs, fn.args.kw_defaults)):
+                    if d is not None and not _immutable_value(d):
+                        defaults.append((f'{rel}: {fn.name}', a.arg))
+            for node in tree.body:
+                holders = [(None, node)] if isinstance(node, (ast.Assign, ast.AnnAssign)) else (
+                    [(node.name, st) for st in node.body if isinstance(st, (ast.Assign, ast.AnnAssign))]
+                    if isinstance(node, ast.ClassDef) else [])
+                for cls, st in holders:
+                    val = st.value
+                    tg = st.targets[0] if isinstance(st, ast.Assign) else st.target
+                    if val is None or not isinstance(tg, ast.Name) or _immutable_value(val):
+                        continue
+                    if tg.id == '__all__' or (tg.id.isupper() and cls is None and isinstance(val, ast.Call)
+                                               and ast.unparse(val.func) in ('TypeVar',)):
+                        continue
+                    name = tg.id
+                    hit = any(nm == name and (q is None if cls is None else q in ('self', 'cls', cls)) for q, nm in mutated)
+                    state.append((f'{rel}: {cls + "." if cls else ""}{name}', 'mutated' if hit else 'constant'))
+    if nfun < 300:
+        raise Unsupported(f'package scan found only {nfun} functions')
+    text = ('/-- parameters whose default value is a mutable object (evaluated once, shared by all calls): (function, parameter) -/\n'
+            'def mutableDefaults : List (String × String) := [' + ', '.join(f'("{a}", "{b}")' for a, b in defaults) + ']\n\n'
+            '/-- mutable objects that outlive a call (class attributes, module globals built from list / dict / set / call\n'
+            'expressions): (where, `mutated` if some function of the module changes it in place, else `constant`) -/\n'
+            'def sharedState : List (String × String) := [\n  ' + ',\n  '.join(f'("{a}", "{b}")' for a, b in state) + '\n]\n\n'
+            f'/-- number of function definitions the scan looked at -/\ndef sharedScanFunctions : Nat := {nfun}')
+    return text, hashlib.sha256(repr((defaults, state, nfun)).encode()).hexdigest()
+
+
+TARGETS['T20shared'] = {'file': 'base.py', 'build': build_shared}
